@@ -98,7 +98,7 @@ inline Dense<LD> permute_back(const Dense<LD> &E, const int *perm_r, const int *
 // solution / right-hand side inside the driver (null = none).
 template <class T>
 inline bool check_residual(Ctx &cx, const Dense<typename Wide<T>::W> &Op, const Dense<LD> &F, const T *X, int ldx, const T *B0, int ldb,
-                           int nrhs, const LD *ydiv, const LD *rdiv, LD cmult, const char *O = "residual")
+                           int nrhs, const LD *ydiv, const LD *rdiv, LD cmult, const char *O = "residual", bool normwise_y = false)
 {
     typedef typename Wide<T>::W W;
     int n = Op.m;
@@ -110,6 +110,9 @@ inline bool check_residual(Ctx &cx, const Dense<typename Wide<T>::W> &Op, const 
             if (!finite_w(x)) { cx.skip("overflow-degenerate"); return true; }
             ax[i] = absm(x); ay[i] = ydiv ? ax[i] / ydiv[i] : ax[i];
         }
+        // After iterative refinement the correction dx is only bounded normwise (components of the solution that
+        // are exactly zero pick up rounding noise of relative size eps*||x||), so the bound uses ||y||_inf.
+        if (normwise_y) { LD mx = 0; for (int i = 0; i < n; ++i) mx = std::max(mx, ay[i]); for (int i = 0; i < n; ++i) ay[i] = mx; }
         for (int i = 0; i < n; ++i) {
             W r = widen<T>(B0[(size_t)j * ldb + i]); LD ab = absm(r), fx = 0, opx = 0;
             for (int k = 0; k < n; ++k) { W a = Op(i, k); if (a != W(0)) { r -= a * widen<T>(X[(size_t)j * ldx + k]); opx += absm(a) * ax[k]; } fx += F(i, k) * ay[k]; }
